@@ -138,6 +138,15 @@ def predicted_internal(st):
 
 
 def real_internal(p):
+    """the object's private mechanism state (informational: compared with the mechanism model, never a verdict);
+    None when a refactoring renamed the private fields"""
+    try:
+        return _real_internal(p)
+    except AttributeError:
+        return None
+
+
+def _real_internal(p):
     return {'modified': bool(p.modified), 'rN': int(p._range.N), 'rS': int(round(p._range.sampling * D.SAMP_UNIT)),
             'nfft': int(p.NFFT), 'sides': p.sides, 'has_psd': p._Spectrum__psd is not None}
 
@@ -296,7 +305,7 @@ def random_walks(chk, cls, dt, rec, refs, rng, nwalks, length):
                 # one-sided is not a layout of complex data (rejected: C06); get_converted_psd is a conversion of a
                 # *stored* PSD (C06): it is only exercised once a PSD has been computed (possibly out of date since)
                 while (op in ('SetSides', 'GetConverted') and arg == 'onesided' and p.datatype == 'complex') or \
-                      (op == 'GetConverted' and p._Spectrum__psd is None):
+                      (op == 'GetConverted' and getattr(p, '_Spectrum__psd', 0) is None):
                     op, arg = rng.choice(ops)
             script.append([op, arg])
             ev = op_event(tid, cls, p, op, arg, refs, history)
